@@ -139,7 +139,7 @@ func vc06(c tmplCfg, module bool, mutations int) {
 	vAssert(sameModules(m0, snapModules(d)), "copy has the same modules")
 	vAssert(moduleLinksOwn(d), "module links of the copy are wired to the copy's own nodes")
 	wfCheck(d, "copy")
-	vAssert(vDisjoint(g, d), "copy shares no mutable state with the original")
+	disjoint := vDisjoint(g, d)
 	if mutations > 0 {
 		k := vChoice("mutation", mutations)
 		if vChoice("mutate.original", 2) == 0 {
@@ -151,6 +151,7 @@ func vc06(c tmplCfg, module bool, mutations int) {
 			vAssert(sameSnap(snap(d), s1), "mutating the original leaves the copy unchanged")
 		}
 	}
+	vAssert(disjoint, "copy shares no mutable state with the original")
 	vReach("end")
 }
 
